@@ -274,3 +274,9 @@ Definition ex_setiv_only_writes_iv : bool :=
   existsb (fun e => String.eqb (fst e) ex_entry_setiv
                     && forallb (fun w => String.eqb (fst w) (fst ex_w_iv) && match snd w with [l] => String.eqb l "sm4.ivMu" | _ => false end) (snd e)
                     && negb (match snd e with [] => true | _ => false end)) gen_write_sets.
+
+(* ---- the shortcut of Conn.Close ----
+   Conc/ActiveCall.v models "if x != 0 { return c.conn.Close() }": a Close that finds a Write in flight does not go on
+   to closeNotify (c.out).  The translator reads the condition of that statement from the current source. *)
+Definition close_shortcut_modelled : string := "x != 0".
+Definition close_shortcut_ok : bool := String.eqb gen_close_shortcut_cond close_shortcut_modelled.
